@@ -96,6 +96,44 @@ def analyse(chk, repo, modules, label: str) -> int:
     return n_sets
 
 
+MUT = ("append", "extend", "insert", "pop", "remove", "clear", "update", "add", "discard", "setdefault", "popitem", "sort", "reverse")
+
+
+def shared_state(chk) -> None:
+    """A function that mutates a module-level container (or rebinds a global) answers differently on its second call."""
+    repo = chk.repo
+    n = 0
+    for fi in repo.all_funcs():
+        mod = fi.module
+        local = {a.arg for a in fi.node.args.args + fi.node.args.kwonlyargs}
+        for x in ast.walk(fi.node):
+            if isinstance(x, ast.Name) and isinstance(x.ctx, ast.Store):
+                local.add(x.id)
+        globals_decl = {g for x in ast.walk(fi.node) if isinstance(x, ast.Global) for g in x.names}
+        alias = {}
+        for st in ast.walk(fi.node):
+            if isinstance(st, ast.Assign) and len(st.targets) == 1 and isinstance(st.targets[0], ast.Name) and isinstance(st.value, ast.Name) and st.value.id in mod.consts and st.value.id not in (local - {st.targets[0].id}):
+                alias[st.targets[0].id] = st.value.id
+        for x in ast.walk(fi.node):
+            tgt = None
+            if isinstance(x, ast.Call) and isinstance(x.func, ast.Attribute) and x.func.attr in MUT and isinstance(x.func.value, ast.Name):
+                nm = x.func.value.id
+                tgt = alias.get(nm) or (nm if nm in mod.consts and nm not in local else None)
+            elif isinstance(x, (ast.Assign, ast.AugAssign, ast.Delete)):
+                for t in (x.targets if isinstance(x, (ast.Assign, ast.Delete)) else [x.target]):
+                    if isinstance(t, ast.Subscript) and isinstance(t.value, ast.Name):
+                        nm = t.value.id
+                        tgt = tgt or alias.get(nm) or (nm if nm in mod.consts and nm not in local else None)
+                    if isinstance(t, ast.Name) and t.id in globals_decl:
+                        tgt = tgt or t.id
+            if tgt is not None:
+                val = mod.consts.get(tgt)
+                if val is not None and isinstance(val, (ast.List, ast.Dict, ast.Set, ast.ListComp, ast.DictComp, ast.SetComp, ast.Call)) or tgt in globals_decl:
+                    n += 1
+                    chk.violation("shared-state", fi.site(x), f"`{norm(x)[:70]}` changes the module-level object `{tgt}`: the next call in the same process starts from another state, so repeated calls on the same input differ", key=f"{mod.name}:{fi.qualname}:shared:{tgt}")
+    chk.ok("shared-state", "package", "no function mutates a module-level container or rebinds a global")
+
+
 def run(chk) -> None:
     chk.explanation = (
         "Iteration-order taint analysis over every function of the package: light type inference (annotations, constructors, adds, "
@@ -106,7 +144,13 @@ def run(chk) -> None:
     )
     chk.trusted = ["CPython: set iteration order is a function of the hashes and the insertion history", "scipy/pulp/pandas/mmcif internals are deterministic", "dict and OrderedSet preserve insertion order"]
     chk.assumptions = ["int/float/tuple-of-int hashes do not depend on PYTHONHASHSEED"]
+    chk.robust |= {"order-taint", "nondeterministic-value", "receiver-write", "cache-introspection", "shared-state"}
     n = analyse(chk, chk.repo, None, "package")
+    # repeated calls: no query changes the object it is asked on, none looks at the cache, no module-level container is consumed
+    from checks import c12
+
+    c12.check_effects(chk)
+    shared_state(chk)
     if n < 8:
         chk.error("order-taint", "-", f"only {n} set-typed iteration sites recognised (9 confirmed on the pinned tree): the type inference lost track of the sets")
 
